@@ -203,10 +203,7 @@ def run(ctx):
     bfn = ctx.fn("darling_core::codegen::variant_data::FieldsGen::<'a>::require_fields")
     if a and bfn:
         def has_handoff(fn):
-            for c in [fn] + ctx.closures_of(fn):
-                if ctx.find_calls(c, r"Field::<'a>::as_flatten_initializer$|as_flatten_initializer$"):
-                    return True
-            return False
+            return bool(ctx.find_calls_deep(fn, r"Field::<'a>::as_flatten_initializer$|as_flatten_initializer$", helpers=1))
         loop = ctx.fn("darling_core::codegen::variant_data::FieldsGen::<'a>::core_loop")
         buffers = loop is not None and any(tk.text == "__flatten" for g_ in ctx.generator_group(loop) for tk in tpl.Templates(g_).all_tokens(("ident",)))
         ctx.ob("C09.S.struct-body-hands-off-flatten", a.key, "flatten hand-off", has_handoff(a), "TraitImpl::require_fields must emit the flatten initialiser")
